@@ -73,12 +73,31 @@ def fastpasta(kind="rel"):
     return exe
 
 
+def harness_dir():
+    """Source directory of the in-process driver, with /repo's Cargo.lock copied next to it. With VERIF_REPO set (background runs against a
+    snapshot of the repository: `vp run --with-repo`, VERIF_REPO=$VP_RUN_REPO) a copy whose path dependencies point at that tree."""
+    if "hdir" in _done:
+        return _done["hdir"]
+    hdir = os.path.join(VERIF, "harness")
+    if REPO != "/repo":
+        alt = os.path.join(BUILD, "harness-src")
+        shutil.rmtree(alt, ignore_errors=True)
+        shutil.copytree(hdir, alt, ignore=shutil.ignore_patterns("target", "Cargo.lock"))
+        with open(os.path.join(alt, "Cargo.toml")) as f:
+            t = f.read()
+        with open(os.path.join(alt, "Cargo.toml"), "w") as f:
+            f.write(t.replace('"/repo/', '"%s/' % REPO.rstrip("/")))
+        hdir = alt
+    shutil.copyfile(os.path.join(REPO, "Cargo.lock"), os.path.join(hdir, "Cargo.lock"))
+    _done["hdir"] = hdir
+    return hdir
+
+
 def harness():
     """The in-process driver crate /verif/harness (path dependencies on /repo's crates)."""
     if "inproc" in _done:
         return _done["inproc"]
-    hdir = os.path.join(VERIF, "harness")
-    shutil.copyfile(os.path.join(REPO, "Cargo.lock"), os.path.join(hdir, "Cargo.lock"))
+    hdir = harness_dir()
     if os.environ.get("VERIF_COVERAGE"):
         td = os.path.join(BUILD, "inproc-cov")
         _cargo(["build", "--release", "--offline"], td, "--cfg fastpasta_verif -Cinstrument-coverage", cwd=hdir, toolchain="+nightly", what="fp_inproc coverage build")
